@@ -384,6 +384,15 @@ def frontmatter_docs() -> list[tuple[str, dict]]:
     return out
 
 
+def deep_docs() -> list[tuple[str, dict]]:
+    """nesting deeper than any table of indentation strings: 9 levels of blocks / sections with a multi-line list at the bottom"""
+    inner = [A("K", S("v")), A("L", Lst(S("a"), S("b")))]
+    node = B("D9", inner)
+    for i in range(8, 0, -1):
+        node = B(f"D{i}", [node, A(f"T{i}", I(i))]) if i % 3 else Sec(str(i), f"S{i}", [node, A(f"T{i}", I(i))])
+    return [("DEEP:9", Doc([node, A("Q", S("q"))])), ("DEEP:9:meta", Doc([node], meta=[("TYPE", S("T"))], separator=True))]
+
+
 def target_docs() -> list[tuple[str, dict]]:
     """block inheritance targets and section annotations in every position"""
     v, q = S("v"), S("q")
@@ -438,6 +447,8 @@ def _skeletons():
         "SB_A": lambda s: [Sec("1", "SEC", [B("B1", [A("K", v)] + s.orphan("orphan:B1"), lead=s.lead("lead:block-in-section")),
                                             A("R", r, lead=s.lead("lead:A-after-block-in-section"))] + s.orphan("orphan:S1")), A("Q", q, lead=s.lead("lead:A-after-section"))],
         "B_B": lambda s: [B("B1", [A("K", v)] + s.orphan("orphan:B1")), B("B2", [A("L", w, lead=s.lead("lead:child"))], lead=s.lead("lead:B-after-block"))],
+        "B_ABB": lambda s: [B("B1", [A("K", v), B("B2", [A("L", w)], lead=s.lead("lead:nested-block-mid")), B("B3", [A("M", w)], lead=s.lead("lead:nested-block-last")),
+                                     Sec("2", "IN", [A("N", w)], lead=s.lead("lead:nested-section-last"))]), A("Q", q, lead=s.lead("lead:A-after-block"))],
         "A_B": lambda s: [A("K1", v, trail=s.trail("trail:K1")), B("B1", [A("K", v, lead=s.lead("lead:child"))], lead=s.lead("lead:B-after-A"))],
     }
 
